@@ -2,8 +2,8 @@
 PROPS = {
     "C03_leaky": dict(
         coq=["Props.C03_leaky:C03_", "Corr.Leaky_run"],
-        fams=[("fam_leaky", "gen_step", 170, 20000), ("fam_leaky", "gen_f13", 30, 2000), ("fam_leaky", "gen_f16", 40, 3000),
-              ("fam_leaky", "gen_real", 100, 20000), ("fam_leaky", "gen_new", 150, 10000)],
+        fams=[("fam_leaky", "gen_step", 170, 10000), ("fam_leaky", "gen_f13", 30, 2000), ("fam_leaky", "gen_f16", 40, 3000),
+              ("fam_leaky", "gen_real", 100, 10000), ("fam_leaky", "gen_new", 150, 10000)],
         anchors=["src/stream/model/quantize.rs", "src/lib.rs"],
         rule="constructor rejected the support, OR hypotheses hold (observed non_leaky monotone, <= free_weight) "
              "and >= 3 distinct symbols were decoded or both the iterated and the direct table were compared",
